@@ -115,7 +115,7 @@ func init() {
 				hc.lines = []string{"foldout", "checkdown"}
 				hc.decks = []string{"asc"}
 			}
-			return histSuites("c12/", cfgs, bound, func(h *hist) []Monitor { return []Monitor{newMonC12(h)} })
+			return append(histSuites("c12/", cfgs, bound, func(h *hist) []Monitor { return []Monitor{newMonC12(h)} }), c12SchedSuites(tier)...)
 		},
 	})
 }
